@@ -148,7 +148,7 @@ class Engine(ExprMixin, CallMixin, StmtMixin, Core):
                 ctx = Ctx(self, o.st, old=self.entry_state, exc=o.val)
                 if t.raises is None:
                     continue
-                key = self.pick_clause(cls, t.raises)
+                key = self.pick_clause(cls, t.raises, implicit=bool((o.val.x or {}).get("implicit")))
                 if key is None:
                     self.emit("no-raise", line, o.st, S.FALSE, tag=cls.rstrip("*"),
                               info="an exception of class %s escapes (%s)" % (cls, (o.val.x or {}).get("note")))
@@ -165,10 +165,12 @@ class Engine(ExprMixin, CallMixin, StmtMixin, Core):
         self.n_normal, self.n_raise = n_normal, n_raise
         return self.obls
 
-    def pick_clause(self, cls, raises):
+    def pick_clause(self, cls, raises, implicit=False):
         base = cls.rstrip("*")
         best = None
         for k in raises:
+            if implicit and k in ("Exception", "BaseException"):
+                continue
             if self.hier.is_sub(base, k):
                 if best is None or self.hier.is_sub(k, best):
                     best = k
